@@ -68,13 +68,13 @@ def stop_points(f0: bool, f1: bool, b0: bool, b1: bool, b2: bool, b3: bool, b4: 
     return verdict(r[0])
 
 
-def _blocked(flags, bits, list_kind, early, lazy, choices) -> tuple:
+def _blocked(flags, bits, list_kind, early, lazy, choices, doc=10) -> tuple:
     """Template 10 with a deferred resolver that never completes on its own: once the position it
     belongs to has been nulled by an (asynchronous) non-null error, it must be cancelled -- after
     the response is complete nothing may be left pending."""
     root = make_root(True, False)
     try:
-        d, loop, sched, world = run_incremental(10, root, flags, bits, list_kind, early, lazy, choices, never=("Hero.slow",))
+        d, loop, sched, world = run_incremental(doc, root, flags, bits, list_kind, early, lazy, choices, never=("Hero.slow",))
     except Exception:
         return (False, "harness exception")
     if d.hang:
@@ -84,12 +84,12 @@ def _blocked(flags, bits, list_kind, early, lazy, choices) -> tuple:
     return (True, "")
 
 
-def blocked_deferred_resolver(b2: bool, b4: bool, lazy: bool, c0: int, c1: int, c2: int, *, list_kind: int, early: bool) -> bool:
+def blocked_deferred_resolver(b2: bool, b4: bool, lazy: bool, c0: int, c1: int, c2: int, *, list_kind: int, early: bool, doc: int = 10) -> bool:
     # (only the deferred case: without @defer the executor deliberately lets orphaned awaitables
     # settle instead of cancelling them, so a resolver that never completes is outside its contract)
     flags = [True, True, True, True]
     bits = [False, False, True if b2 else False, False, False, True if b4 else False, False, False]
-    r = concrete(_blocked, flags, bits, list_kind, early, True if lazy else False, [c0, c1, c2, 0])
+    r = concrete(_blocked, flags, bits, list_kind, early, True if lazy else False, [c0, c1, c2, 0], doc)
     if not r[0]:
         note(r[1])
     return verdict(r[0])
@@ -129,15 +129,17 @@ def obligations(tier):
     obs = [dict(fn="stop_points", cell=c, budget_s=1200 if th else 40, expect_confirm=th) for c in cells(tier)]
     for lk in (0, 1, 2):
         for early in (False, True):
-            obs.append(dict(fn="blocked_deferred_resolver", cell=dict(list_kind=lk, early=early), budget_s=600 if th else 60))
+            for doc in (10, 12):
+                obs.append(dict(fn="blocked_deferred_resolver", cell=dict(list_kind=lk, early=early, doc=doc), budget_s=600 if th else 60))
     return obs
 
 
 def corpus():
     for lk in (0, 1, 2):
         for early in (False, True):
-            yield "blocked_deferred_resolver", dict(list_kind=lk, early=early), dict(b2=False, b4=True, lazy=False, c0=0, c1=0, c2=0)
-            yield "blocked_deferred_resolver", dict(list_kind=lk, early=early), dict(b2=True, b4=False, lazy=True, c0=1, c1=0, c2=0)
+            for doc in (10, 12):
+                yield "blocked_deferred_resolver", dict(list_kind=lk, early=early, doc=doc), dict(b2=False, b4=True, lazy=False, c0=0, c1=0, c2=0)
+                yield "blocked_deferred_resolver", dict(list_kind=lk, early=early, doc=doc), dict(b2=True, b4=False, lazy=True, c0=1, c1=0, c2=0)
     base = dict(f0=True, f1=True, b0=False, b1=False, b2=False, b3=False, b4=False, lazy=False, c0=0, c1=0, c2=0, c3=0, stop_after=1, abort_at=1, reason_kind=1)
     for c in cells("quick"):
         yield "stop_points", c, dict(base)
